@@ -41,7 +41,7 @@ def check(c, xs):
 
 
 ARGS = {"W11": [1, 2, 3, 4, 5, 6, 7], "W12": [11, 12, 13, 14, 15, 16, 17], "W1": [1, 2], "W2": [1, 2, 3], "W3": [1, 2, 3], "W4": [1, 2], "W5": [1, 2], "W6": [1, 2], "W7": [1, 2, 3, 4, 5],
-        "W8": [1, 2], "W9": [1, 2], "W10": [1, 2]}[W]
+        "W8": [1, 2], "W9": [1, 2], "W10": [1, 2], "W13": [1, 2]}[W]
 
 if phase == "pre":
     m, c = mem()
@@ -52,7 +52,7 @@ if phase == "pre":
     elif W in ("W11", "W12"):
         check(c, ARGS[:6])
 elif phase == "run":
-    if W in ("W1", "W6", "W9", "W10"):
+    if W in ("W1", "W6", "W9", "W10", "W13"):
         m, c = mem()
         check(c, [1, 2])
     elif W == "W2":
@@ -88,7 +88,7 @@ elif phase == "run":
         check(c, [1])
         m.clear(warn=False)
         check(c, [2])
-elif phase in ("recover", "recover_cb", "recover_udcb"):
+elif phase in ("recover", "recover_cb", "recover_udcb", "recover_shelve"):
     # 1) every file visible under its final name must be one complete, legitimate result
     bad = []
     for p in glob.glob(os.path.join(cache, "**", "output.pkl"), recursive=True):
@@ -107,6 +107,28 @@ elif phase in ("recover", "recover_cb", "recover_udcb"):
             return metadata["duration"] >= 0 and metadata["time"] > 0
 
         m, c = mem(expires_after(days=1) if phase == "recover_cb" else (user_cb if phase == "recover_udcb" else None))
+        if phase == "recover_shelve":
+            # recovery through references: call_and_shelve(x).get(), and check_call_in_cache must not promise what is not there
+            expected = {x: c05funcs.f(x) for x in ARGS}
+            runs = [0]
+            orig = c05funcs.make
+
+            def counting(tag, x):
+                runs[0] += 1
+                return orig(tag, x)
+
+            c05funcs.make = counting
+            for x in ARGS:
+                promised = c.check_call_in_cache(x)
+                before = runs[0]
+                ref = c.call_and_shelve(x)
+                v = ref.get()
+                if v != expected[x]:
+                    raise AssertionError(f"wrong value from call_and_shelve({x}).get(): {str(v)[:80]}")
+                if promised and runs[0] != before:
+                    raise AssertionError(f"check_call_in_cache({x}) answered True but the call executed the function")
+                calls.append(x)
+            c05funcs.make = orig
         check(c, ARGS)
         check(c, ARGS)
         assert c.check_call_in_cache(ARGS[0]) in (True, False)
